@@ -61,6 +61,9 @@ func init() {
 var rtInfix = []string{"+", "-", "*", "/", "%", "<", ">", "<=", ">=", "==", "!=", "&&", "||", "&", "|", "^", "<<", ">>", ":", "=", ":="}
 var rtPrefix = []string{"-", "!", "~", "^", "+", "++", "--"}
 
+// c02Family maps a skeleton to the discriminator its violations are reported under (default: the skeleton).
+var c02Family = map[string]string{}
+
 func c02Templates(tier string) []string {
 	var ts []string
 	add := func(s ...string) { ts = append(ts, s...) }
@@ -102,6 +105,23 @@ func c02Templates(tier string) []string {
 		"-a.b", "-a[0]", "-f(a)", "!a.b", "a.b++", "a[0]++", "a . b", "a. b", "a .b", "a.\"k\"", "a.1", "1.a", "a.b.1",
 		"a && b || c", "a || b && c", "(a || b) && c", "a == b == c", "a < b < c", "a : b : c", "a:b", "(a:b)", "[a:b]", "x[a:b]", "x[(a:b)]", "x[a:b:c]",
 	)
+	// operand forms on either side of a lower-precedence parenthesised operand
+	lefts := []string{"f(a)", "f()", "a[i]", "a.k", "len(a)", "a++", "-a", "!a", "\"s\"", "[a]", "{a:b}", "(x=>x)(1)", "a[1:2]", "1", "1.5", "true", "func(){a}()", "a.b.c", "f(a)(b)", "a[i][j]"}
+	for _, l := range lefts {
+		for _, pair := range [][2]string{{"*", "+"}, {"-", "||"}, {"/", "-"}, {"+", "=="}, {"&&", "||"}, {"<", "+"}, {"-", "-"}, {"%", "<<"}} {
+			add(l+" "+pair[0]+" (b "+pair[1]+" c)", "(b "+pair[1]+" c) "+pair[0]+" "+l, l+" "+pair[0]+" b "+pair[1]+" c")
+		}
+	}
+	// every kind of statement followed by every kind of statement (separators in both modes)
+	prevs := []string{"a", "a++", "f(a)", "a[0]", "\"s\"", "1", "x = 1", "{a:b}", "[a]", "a.b", "func(){}", "f = x => x", "-a", "a + b", "if a {b}", "for a {b}", "return a", "len(a)", "a--", "x := [1]", "1.5", "true"}
+	nexts := []string{"[b][0]", "[b] + [c]", "[b]", "(b) + c", "(b)", "-b", "+b", "!b", "++b", "--b", "^b", "~b", "{b:c}", "{b:c}[b]", "\"t\"", "b", "1", ".5", "f(b)", "if b {c}", "for b {c}", "func(){b}", "func g(){b}", "x => x", "(x, y) => x", "b++", "b = 1", "return", "len(b)", "[b][0] = 1"}
+	for _, pv := range prevs {
+		for _, nx := range nexts {
+			add(pv+"; "+nx, pv+"\n"+nx)
+			c02Family[pv+"; "+nx] = "statement pair: <expression statement> then " + nx
+			c02Family[pv+"\n"+nx] = "statement pair: <expression statement> then " + nx
+		}
+	}
 	// symbolic bytes: literal contents, identifier/number bytes, spacing and separators
 	add("s = \"@\"", "s = \"@@\"", "s = \"a@b\"", "s = \"\\@\"", "s = `@`", "s = `@@`", "// @\na", "// @@\na", "a // @", "/* @ */ a", "/* @@ */ a", "a /* @ */ b",
 		"a@ = 1", "a@@", "x = 1@", "x = 1@@", "x = @.@", "x = 1e@", "x = 0x@", "a@(b)", "a@[1]", "a@b", "a@-b", "a;@b", "a @ b", "a @@ b", "a@@b", "{a@1}", "f(a@b)", "[a@b]", "a@@ b", "a @@b", "@a", "@@a", "a@", "a@@",
@@ -121,14 +141,14 @@ func init() {
 						if id == "C03" {
 							what = "fixpoint"
 						}
-						jobs = append(jobs, Job{Prop: id, Pkg: "parser", Func: "VerifRoundTrip", Args: []string{t, mode, what}})
+						jobs = append(jobs, Job{Prop: id, Pkg: "parser", Func: "VerifRoundTrip", Args: []string{t, mode, what, c02Family[t]}})
 					}
 				}
 				return jobs
 			},
 			Budget: map[string]time.Duration{"quick": 8 * time.Minute, "thorough": 60 * time.Minute},
 			Reach:  []string{"input parses"},
-			Bounds: map[string]interface{}{"skeletons": "every ordered pair of 21 infix operators in 5 parent/child shapes (left, right, parenthesised either side, under a call, in a list); every prefix x infix combination in 6 shapes; every infix operator against index, dot, slice, call, lambda, postfix, map, statement boundary, builtin, function, if-expression; prefix pairs; ~250 statement-kind, literal, spacing, separator and comment-position skeletons",
+			Bounds: map[string]interface{}{"skeletons": "20 operand forms (call, index, dot, builtin, postfix, prefix, literals, lambda call...) on either side of a parenthesised lower-precedence operand for 8 operator pairs; 22 kinds of statement followed by 30 kinds of statement with ; and newline separators; every ordered pair of 21 infix operators in 5 parent/child shapes (left, right, parenthesised either side, under a call, in a list); every prefix x infix combination in 6 shapes; every infix operator against index, dot, slice, call, lambda, postfix, map, statement boundary, builtin, function, if-expression; prefix pairs; ~250 statement-kind, literal, spacing, separator and comment-position skeletons",
 				"symbolic_bytes": "55 skeletons with 1-2 arbitrary bytes ('@'): string / raw string / comment contents, identifier and number bytes, the byte before ( [ - and between statements, operator positions - all 256 values per byte",
 				"modes":          "normal and compact"},
 			Outside: []string{"nesting deeper than the skeletons (the property's 'arbitrary nesting' is not reached by this technique)", "interactions needing three or more specific constructs in a row"},
